@@ -90,7 +90,25 @@ def gen_vn():
         and len(re.findall(r"\.zip\(", cb)) == 2
     )
     out += "Definition parts_load_single_fold : bool := %s.\n" % coq_bool(single_fold)
+    # the part loads are computed ONCE (before the sort / the loop) and afterwards only updated incrementally by the
+    # moved weight; no periodic or conditional recomputation.  Fails closed.
+    def loads_once(body, loop_pat, n_updates, what):
+        calls = [m.start() for m in re.finditer(r"compute_parts_load\s*\(", body)]
+        lp = re.search(loop_pat, body)
+        whole = re.findall(r"\bpart_loads\s*=(?!=)", body)          # `let mut part_loads =` only
+        elem = re.findall(r"\bpart_loads\[[^\]]+\]\s*(?:\+=|-=|=(?!=))", body)
+        return (len(calls) == 1 and lp is not None and calls[0] < lp.start() and len(whole) == 1
+                and re.search(r"let\s+mut\s+part_loads\s*=\s*(?:crate::imbalance::)?compute_parts_load\s*\(", body) is not None
+                and len(elem) == n_updates
+                and not re.search(r"REFRESH|PERIOD|%\s*[A-Z_0-9]", body))
+    out += "Definition vnbest_loads_computed_once : bool := %s.\n" % coq_bool(
+        loads_once(b, r"\bloop\s*\{", 2, "best")
+        and _pos(r"compute_parts_load\s*\(", b, "best: compute_parts_load") < _pos(r"criterion\.sort_unstable_by", b, "best: sort"))
     f = fn_body(read("src/algorithms/vn/first.rs"), "vn_first")
+    if f is None:
+        raise Fail("fn vn_first not found")
+    out += "Definition vnfirst_loads_computed_once : bool := %s.\n" % coq_bool(
+        loads_once(f, r"\bwhile\s+i\s*!=\s*i_last", 4, "first"))
     if f is None:
         raise Fail("fn vn_first not found")
     m = re.search(r"if\s+part_loads\[p\]\s*(<=|<)\s*max_load\s*\{[^}]*continue", f)
@@ -130,6 +148,10 @@ PROP = dict(
          "of 2-4 calls (its own output again, new weights on that output, another length), each call a case of its own; "
          "plus a SCALE family (1 unit in 8): the integer families times 2^s (subnormal .. 2^900, every value, sum, "
          "difference and half exact) as plain f64 or through coupe::Real, compared with the integer model (flt = true); "
+         "plus a MANY-MOVES family (a few cases per quick run): one heavy weight per part, a surplus of small weights in "
+         "part 0 and small weights in random parts, 2..4 parts, built so that ONE VnBest run makes 1100..5000 moves (the "
+         "harness counts the runs that reach 1024 moves), or 1100..2000 successive VnFirst calls on one value; generator "
+         "parameters + output difference, judged by the certified checker on exact loads; "
          "plus a LARGE family (a few cases per quick run, ~100 per thorough run): 4097..9999 weights (4097, 4104, 5000, 8191, "
          "8193, 9000, 9999), 2..8 parts, i64 or integer-valued f64, the last len % 4096 positions holding all the weight of "
          "the last part (made the heaviest) or weights (n-t)/t times larger -- described by generator parameters, output "
@@ -184,7 +206,7 @@ MANIFEST = dict(
          "VnFirst can raise the exact gap by a rounding error "
          "(C14_vnfirst_f64_exact_gap_refuted); the integer theorems stand as stated for i64 and integer-valued f64.",
     design_ref="DESIGN.md §7 C14",
-    note="Trusted: Coq kernel; model<->code tie = translator (13 literals, incl. compute_parts_load and the order of coupe::Real) + differential runs (4k/40k cases); itertools minmax "
+    note="Trusted: Coq kernel; model<->code tie = translator (15 literals, incl. compute_parts_load and the order of coupe::Real) + differential runs (4k/40k cases); itertools minmax "
          "and binary_search contracts as listed; no axioms.",
     technique="Coq proof (loop invariants; decreasing sum of squares; invariant on tracked vs true loads for VnFirst) + translator "
               "+ model/implementation correspondence + certified checker",
